@@ -72,7 +72,49 @@ class C04(HetMixin, C01):
                                               lat.coq_val(t, case["c"]), lat.coq_obs(t, res))
 
 
+class C04UF(vlib.Spec):
+    """the union-find part (lattices/src/union_find.rs): engine files Lattice/{UF,PUF}.v,
+    harness h_uf, generator tools/uf.py"""
+    from tools import uf as _uf
+    model_vo = _uf.MODEL_VO
+    props_vo = _uf.PROPS_VO
+    theorems = _uf.THEOREMS
+    crate, group, binary = _uf.CRATE, _uf.GROUP, _uf.BINARY
+    imports = _uf.IMPORTS
+    harness_env = _uf.HARNESS_ENV
+    trusted_base = C01.trusted_base + ["Gallina model Lattice/UF.v (find is fuelled), harness h_uf, tools/uf.py"]
+    assumptions = ["union-find: parent maps reachable from Default by unions/merges (forest); a rho-shaped map makes "
+                   "the real find loop forever (documented precondition, C04_uf_find_rho_diverges_refuted)"]
+    rule = ("union-find: histories of union / same / merge / compare ops on hash, btree and vec backed maps, answers "
+            "compared with the model and with an independent equivalence-closure oracle")
+
+    def n_cases(self, tier):
+        return 500 if tier == "quick" else 4000
+
+    def gen(self, rng, tier, n):
+        return self._uf.gen_cases(rng, tier, n)
+
+    def to_coq(self, case, res):
+        return self._uf.to_coq(case, res)
+
+    def shrink(self, case):
+        return self._uf.shrink(case)
+
+    def nontrivial(self, case, res):
+        return self._uf.nontrivial(case, res)
+
+    def describe(self, case, res):
+        return self._uf.describe(case, res)
+
+    def coverage_extra(self, cases, results):
+        return {"uf_distribution": self._uf.distribution(cases, results)}
+
+
 def main(ctx):
+    # part 1: union-find (own harness and model); its coverage is carried into part 2
+    ctx.defer = True
+    vlib.standard_check(ctx, C04UF())
+    ctx.defer = False
     spec = C04()
     spec.ctx = ctx
     vlib.standard_check(ctx, spec)
